@@ -4,7 +4,7 @@ package c19
 //
 // One case = one helper process (harness/c19race, `go build -race -tags verif`, file trav.go) walking ONE explicit graph
 // with the options WithRootNodesAndDown / InReverseOrder / WithMaxConcurrency, a visitor that takes a little time (sibling
-// workers overlap) and optionally one failing visitor, a few rounds.  Graph shapes: fan (a middle service with 0..2
+// workers overlap) and optionally one failing visitor, a few rounds, 1 / 2 / 4 walks of the SAME project value at once.  Graph shapes: fan (a middle service with 0..2
 // dependencies of its own and 2..8 dependents that become ready together), diamond (k parallel branches between a
 // bottom and a top, optionally on a base chain), ladder (two chains with rungs), random DAGs.  Root selections: none / the
 // middle / a leaf / two services / every service.  Failing input = the case itself (graph, options), key
@@ -28,6 +28,7 @@ type travRaceCase struct {
 	FailAt  int      `json:"fail_at"`
 	Rounds  int      `json:"rounds"`
 	Collect bool     `json:"collect"`
+	Par     int      `json:"par"` // walks of the SAME project value at once (1 = one walk)
 }
 
 type travRaceJob struct {
@@ -135,6 +136,8 @@ func runC19TravRace(ctx *core.Ctx) {
 		if ctx.Rng.Intn(6) == 0 {
 			c.FailAt = ctx.Rng.Intn(c.N)
 		}
+		c.Par = []int{1, 1, 1, 2, 4}[ctx.Rng.Intn(5)]
+		ctx.Count(fmt.Sprintf("travRace:walks-at-once=%d", c.Par))
 		ctx.Count("travRace:shape:" + j.Shape)
 		ctx.Count("travRace:roots:" + rootSel)
 		ctx.Count(fmt.Sprintf("travRace:limit=%d", c.Limit))
@@ -165,8 +168,8 @@ func judgeTravRace(args, real, _ json.RawMessage) *core.Verdict {
 	}
 	var j travRaceJob
 	json.Unmarshal(args, &j)
-	desc := fmt.Sprintf("traversal of %d services, edges (a depends on b) %v, WithRootNodesAndDown%v, WithMaxConcurrency(%d), reverse=%v, failing visitor %d, GOMAXPROCS=%d",
-		j.Trav.N, j.Trav.Edges, j.Trav.Roots, j.Trav.Limit, j.Trav.Reverse, j.Trav.FailAt, j.Procs)
+	desc := fmt.Sprintf("traversal of %d services, edges (a depends on b) %v, WithRootNodesAndDown%v, WithMaxConcurrency(%d), reverse=%v, failing visitor %d, %d walk(s) of the same project at once, GOMAXPROCS=%d",
+		j.Trav.N, j.Trav.Edges, j.Trav.Roots, j.Trav.Limit, j.Trav.Reverse, j.Trav.FailAt, max(j.Trav.Par, 1), j.Procs)
 	if len(r.Races) > 0 {
 		return core.Fail(r.Races[0], fmt.Sprintf("data race inside the library's own parallel operation: %s: %v\n%s", desc, r.Races, r.RaceText))
 	}
